@@ -2,7 +2,7 @@
    Statements only; proofs in Proofs/LimitProofs.v.  Models: Model/Limit.v (run validators over the regenerated
    Gen_limit tables).  `closed` is the networkx representation invariant "edge endpoints are nodes". *)
 From stdpp Require Import strings gmap sets.
-From CG Require Import Model.Limit Proofs.LimitProofs.
+From CG Require Import Model.Limit Proofs.LimitProofs Proofs.LimitLint.
 Open Scope string_scope.
 
 (* obligation on the tables regenerated from tx.py: for every multi-input type t, gatemap t is the non-inverting
@@ -13,7 +13,8 @@ Print Assumptions C05_tables_ok.
 
 (* limit_fanin: every execution accepted by the validator (any visiting order of the nodes, any choice of the two
    operands popped in each iteration) returns a circuit with the same inputs and outputs, fan-in at most k everywhere,
-   and exactly the behaviours of c on the nodes of c (both directions).  No acyclicity or lint hypothesis. *)
+   and exactly the behaviours of c on the nodes of c (both directions).  No acyclicity or lint hypothesis
+   (lint-clean inputs are a special case; cyclic circuits are covered because `consistent` is relational). *)
 Theorem C05_limit_fanin : ∀ C k steps C', closed (c_g C) → limit_fanin_run C k steps = Ok C' →
   2 ≤ k ∧ inputs (c_g C') = inputs (c_g C) ∧ outputs (c_g C') = outputs (c_g C) ∧
   (∀ n, size (fanin (c_g C') n) ≤ k) ∧ equiv_on (dom (c_g C)) (c_g C) (c_g C') ∧
@@ -51,16 +52,16 @@ Proof.
 Qed.
 Print Assumptions C05_insert_registers.
 
-(* the statement of DESIGN.md appendix C additionally asks for lint-cleanness of the result (C20's second clause);
-   that conjunct is not proved here -- the oracle of Run_C05 checks `lint_cleanb` on every returned circuit *)
-Definition C05_limit_fanin_with_lint : Prop := ∀ C k steps C', 2 ≤ k → lint_clean C → closed (c_g C) →
-  limit_fanin_run C k steps = Ok C' →
-  inputs (c_g C') = inputs (c_g C) ∧ outputs (c_g C') = outputs (c_g C) ∧
-  (∀ n, size (fanin (c_g C') n) ≤ k) ∧ equiv_on (dom (c_g C)) (c_g C) (c_g C') ∧ lint_clean C'.
-Definition C05_limit_fanout_with_lint : Prop := ∀ C k steps C', 2 ≤ k → lint_clean C → closed (c_g C) →
-  limit_fanout_run C k steps = Ok C' →
-  inputs (c_g C') = inputs (c_g C) ∧ outputs (c_g C') = outputs (c_g C) ∧
-  (∀ n, size (fanout (c_g C') n) ≤ k) ∧ equiv_on (dom (c_g C)) (c_g C) (c_g C') ∧ lint_clean C'.
+(* DESIGN.md appendix C additionally asks for lint-cleanness of the result (C20's second clause for these two functions):
+   a lint-clean circuit stays lint-clean, for every accepted run *)
+Theorem C05_limit_fanin_lint_clean : ∀ C k steps C', closed (c_g C) → lint_clean C →
+  limit_fanin_run C k steps = Ok C' → lint_clean C'.
+Proof. intros C k steps C'. exact (limit_fanin_lint _ C k steps C' C05_tables_ok). Qed.
+Print Assumptions C05_limit_fanin_lint_clean.
+Theorem C05_limit_fanout_lint_clean : ∀ C k steps C', closed (c_g C) → lint_clean C →
+  limit_fanout_run C k steps = Ok C' → lint_clean C'.
+Proof. intros C k steps C'. exact (limit_fanout_lint _ C k steps C' C05_tables_ok). Qed.
+Print Assumptions C05_limit_fanout_lint_clean.
 
 (* the oracle's verdict is a statement about `consistent`: a passed check implies the equivalence of the theorems above *)
 Theorem C05_oracle_sound : ∀ c c', equiv_check c c' = true → equiv_on (dom c) c c'.
